@@ -5,8 +5,9 @@ import Agd.Tie.C18
 
 Property theorems only; the model is `Agd/Model/ConnLimit.lean`, helper lemmas are in
 `Agd/Lemmas/ConnLimit.lean`.  Every theorem quantifies over **all** schedules `ops : List Op`
-(accept / wake-up re-check / deliver / failed accept / close, repeated close / listener close, over
-any number of listeners sharing the counter) and all thresholds `WF stop resume`
+(accept / wake-up re-check / deliver, also racing with a listener close / failed accept / close and
+repeated close, with or without an error from the wrapped connection / listener close, with or
+without an error from the wrapped listener; over any number of listeners sharing the counter) and all thresholds `WF stop resume`
 (`0 < stop`, `resume ≤ stop`, `stop < 2^64`: exactly what `connlimiter.New` lets through).
 `repaired` is the variant pinned by `Tie/C18.lean`; `original` is the pinned tree before the two
 `fix:` commits, for which the statements are refuted below.
@@ -51,12 +52,12 @@ example : WF 2 0 ∧ count (run repaired (init 2 0) [.accept 0, .accept 1]) = 2 
     (step repaired (run repaired (init 2 0) ([.accept 0, .accept 1] ++ [.fail 0])) (.accept 1)).2 = .wait := by
   refine ⟨⟨by decide, by decide, by decide⟩, by decide, ⟨by decide, trivial⟩, by decide⟩
 
-/-- **resume_reopens.**  A release (`close` of an open connection or a failed pending accept) that
-brings the number down to `resume` or below makes the counter accept again and wakes *every*
-waiting acceptor. -/
+/-- **resume_reopens.**  A release (`close` of an open connection, whatever the wrapped connection's
+own `Close` returns, or a failed pending accept) that brings the number down to `resume` or below
+makes the counter accept again and wakes *every* waiting acceptor. -/
 theorem resume_reopens (stop resume : Nat) (h : WF stop resume) (ops : List Op) (o : Op)
-    (hrel : (∃ k, o = .close k) ∨ (∃ l, o = .fail l))
-    (hok : (step repaired (run repaired (init stop resume) ops) o).2 = .ok)
+    (hrel : (∃ k e, o = .close k e ∧ k ∈ (run repaired (init stop resume) ops).open_) ∨
+            (∃ l, o = .fail l ∧ l ∈ (run repaired (init stop resume) ops).pending))
     (hlow : count (step repaired (run repaired (init stop resume) ops) o).1 ≤ resume) :
     (step repaired (run repaired (init stop resume) ops) o).1.c.accepting = true ∧
     (step repaired (run repaired (init stop resume) ops) o).1.waitq = [] ∧
@@ -81,28 +82,21 @@ theorem resume_reopens (stop resume : Nat) (h : WF stop resume) (ops : List Op) 
     · first | rfl | trivial
     · first | rfl | trivial
   have hcur : (step repaired s o).1.c.current ≤ resume := by rw [hi'.cnt]; exact hlow
-  rcases hrel with ⟨k, rfl⟩ | ⟨l, rfl⟩
-  · simp only [step] at hok hcur ⊢
-    split at hok
-    · rename_i hk
-      simp only [hk, if_true] at hcur ⊢
-      have hpos : 0 < s.open_.length := List.length_pos_of_mem hk
-      exact key _ rfl (by have := hi.cnt; omega) hcur
-    · simp at hok
-  · simp only [step] at hok hcur ⊢
-    split at hok
-    · rename_i hl
-      simp only [hl, if_true] at hcur ⊢
-      have hpos : 0 < s.pending.length := List.length_pos_of_mem hl
-      exact key _ rfl (by have := hi.cnt; omega) hcur
-    · simp at hok
+  rcases hrel with ⟨k, e, rfl, hk⟩ | ⟨l, rfl, hl⟩
+  · simp only [step, hk, if_true] at hcur ⊢
+    have hpos : 0 < s.open_.length := List.length_pos_of_mem hk
+    exact key _ rfl (by have := hi.cnt; omega) hcur
+  · simp only [step, hl, if_true] at hcur ⊢
+    have hpos : 0 < s.pending.length := List.length_pos_of_mem hl
+    exact key _ rfl (by have := hi.cnt; omega) hcur
 
 example : WF 2 1 ∧
+    0 ∈ (run repaired (init 2 1) [.accept 0, .deliver 0, .accept 0, .accept 1, .accept 1]).open_ ∧
+    count (step repaired (run repaired (init 2 1) [.accept 0, .deliver 0, .accept 0, .accept 1, .accept 1])
+      (.close 0 true)).1 ≤ 1 ∧
     (step repaired (run repaired (init 2 1) [.accept 0, .deliver 0, .accept 0, .accept 1, .accept 1])
-      (.close 0)).2 = .ok ∧
-    (step repaired (run repaired (init 2 1) [.accept 0, .deliver 0, .accept 0, .accept 1, .accept 1])
-      (.close 0)).1.woken = [1, 1] := by
-  refine ⟨⟨by decide, by decide, by decide⟩, by decide, by decide⟩
+      (.close 0 true)).1.woken = [1, 1] := by
+  refine ⟨⟨by decide, by decide, by decide⟩, by decide, by decide, by decide⟩
 
 /-- **woken_proceeds.**  A woken acceptor of an open listener that finds the counter accepting gets
 past the limiter ("waiting accepts proceed"). -/
@@ -121,14 +115,16 @@ theorem no_stuck_waiter (stop resume : Nat) (h : WF stop resume) (ops : List Op)
   simp at hl
 
 /-- **close_releases_waiters.**  No acceptor is ever parked on a closed listener; closing a listener
-moves every parked acceptor to `woken`, and a woken acceptor of a closed listener returns
+moves every parked acceptor to `woken` (also when the wrapped listener's own `Close` fails), and a woken acceptor of a closed listener returns
 `net.ErrClosed` without touching the counter. -/
 theorem close_releases_waiters (stop resume : Nat) (h : WF stop resume) (ops : List Op) :
     (∀ l ∈ (run repaired (init stop resume) ops).closed,
         l ∉ (run repaired (init stop resume) ops).waitq) ∧
-    (∀ l, l ∉ (run repaired (init stop resume) ops).closed →
-        (step repaired (run repaired (init stop resume) ops) (.lclose l)).1.waitq = [] ∧
-        l ∈ (step repaired (run repaired (init stop resume) ops) (.lclose l)).1.closed) ∧
+    (∀ l e, l ∉ (run repaired (init stop resume) ops).closed →
+        (step repaired (run repaired (init stop resume) ops) (.lclose l e)).1.waitq = [] ∧
+        (step repaired (run repaired (init stop resume) ops) (.lclose l e)).1.woken =
+          (run repaired (init stop resume) ops).woken ++ (run repaired (init stop resume) ops).waitq ∧
+        l ∈ (step repaired (run repaired (init stop resume) ops) (.lclose l e)).1.closed) ∧
     (∀ l, l ∈ (run repaired (init stop resume) ops).woken →
         l ∈ (run repaired (init stop resume) ops).closed →
         (step repaired (run repaired (init stop resume) ops) (.recheck l)).2 = .closed ∧
@@ -137,70 +133,161 @@ theorem close_releases_waiters (stop resume : Nat) (h : WF stop resume) (ops : L
   have hi := reach_inv h ops
   generalize run repaired (init stop resume) ops = s at *
   refine ⟨fun l hc hw => hi.waitOpen l hw hc, ?_, ?_⟩
-  · intro l hl
+  · intro l e hl
     simp [step, hl, wake]
   · intro l hw hc
     simp [step, hw, attempt, repaired, hc]
 
-example : (run repaired (init 1 0) [.accept 0, .accept 1, .accept 1, .lclose 1]).woken = [1, 1] ∧
-    (step repaired (run repaired (init 1 0) [.accept 0, .accept 1, .accept 1, .lclose 1])
+example : (run repaired (init 1 0) [.accept 0, .accept 1, .accept 1, .lclose 1 true]).woken = [1, 1] ∧
+    (step repaired (run repaired (init 1 0) [.accept 0, .accept 1, .accept 1, .lclose 1 true])
       (.recheck 1)).2 = .closed := by decide
 
-/-- **release_once.**  Closing an open connection lowers the counter by exactly one; afterwards the
-connection stays closed whatever happens, and every further `Close` returns `net.ErrClosed` and
-changes nothing.  (With `bound`: the counter always equals the connections that are still open plus
-pending accepts, however often each connection was closed.) -/
+/-- **release_once.**  Closing an open connection lowers the counter by exactly one — also when the
+wrapped connection's own `Close` fails (`e`); afterwards the connection stays closed whatever
+happens, and every further `Close` returns `net.ErrClosed` and changes nothing.  (With `bound`: the
+counter always equals the connections that are still open plus pending accepts, however often each
+connection was closed.) -/
 theorem release_once (stop resume : Nat) (h : WF stop resume) (ops more : List Op) (k : Nat)
-    (hk : k ∈ (run repaired (init stop resume) ops).open_) :
-    (step repaired (run repaired (init stop resume) ops) (.close k)).1.c.current + 1 =
+    (e e' : Bool) (hk : k ∈ (run repaired (init stop resume) ops).open_) :
+    (step repaired (run repaired (init stop resume) ops) (.close k e)).1.c.current + 1 =
       (run repaired (init stop resume) ops).c.current ∧
-    step repaired (run repaired (step repaired (run repaired (init stop resume) ops) (.close k)).1 more)
-        (.close k) =
-      (run repaired (step repaired (run repaired (init stop resume) ops) (.close k)).1 more,
+    step repaired (run repaired (step repaired (run repaired (init stop resume) ops) (.close k e)).1 more)
+        (.close k e') =
+      (run repaired (step repaired (run repaired (init stop resume) ops) (.close k e)).1 more,
         .errClosed) := by
   have hi := reach_inv h ops
-  have hi' := step_inv h _ (.close k) hi
+  have hi' := step_inv h _ (.close k e) hi
   generalize run repaired (init stop resume) ops = s at *
   have hcnt := hi'.cnt
   have hlen := List.length_erase_of_mem hk
   have hpos : 0 < s.open_.length := List.length_pos_of_mem hk
-  have hopen : (step repaired s (.close k)).1.open_ = s.open_.erase k := by
+  have hopen : (step repaired s (.close k e)).1.open_ = s.open_.erase k := by
     simp only [step, hk, if_true]; exact (release_open repaired _).1
-  have hpend : (step repaired s (.close k)).1.pending = s.pending := by
+  have hpend : (step repaired s (.close k e)).1.pending = s.pending := by
     simp [step, hk, release, wake, repaired]
-  have hnext : (step repaired s (.close k)).1.nextConn = s.nextConn := by
+  have hnext : (step repaired s (.close k e)).1.nextConn = s.nextConn := by
     simp only [step, hk, if_true]; exact (release_open repaired _).2
   constructor
   · rw [hcnt, hopen, hpend, hi.cnt]; omega
-  · have hnot : k ∉ (step repaired s (.close k)).1.open_ := by
+  · have hnot : k ∉ (step repaired s (.close k e)).1.open_ := by
       rw [hopen]; exact fun hm => (List.Nodup.mem_erase_iff hi.nodup).1 hm |>.1 rfl
-    have hlt : k < (step repaired s (.close k)).1.nextConn := by rw [hnext]; exact hi.fresh k hk
+    have hlt : k < (step repaired s (.close k e)).1.nextConn := by rw [hnext]; exact hi.fresh k hk
     have := (closed_conn_stays_run more _ k hnot hlt).1
-    generalize run repaired (step repaired s (.close k)).1 more = t at this ⊢
+    generalize run repaired (step repaired s (.close k e)).1 more = t at this ⊢
     simp [step, this]
 
 example : 0 ∈ (run repaired (init 2 1) [.accept 0, .deliver 0]).open_ ∧
-    (run repaired (init 2 1) [.accept 0, .deliver 0, .close 0, .accept 0, .close 0]).c.current = 1 := by
+    (run repaired (init 2 1)
+      [.accept 0, .deliver 0, .close 0 true, .accept 0, .close 0 false]).c.current = 1 := by
   decide
 
-/-- **pipeline_bound.**  With pipeline limiting enabled, at most `n` queries of one TCP/TLS connection
-are in flight, for every burst and every order of arrivals and completions. -/
-theorem pipeline_bound (n : Nat) (ops : List POp) : (Pipe.run (Pipe.init n) ops).inflight ≤ n := by
-  have : ∀ p : Pipe, p.inflight ≤ p.n →
-      (Pipe.run p ops).inflight ≤ (Pipe.run p ops).n ∧ (Pipe.run p ops).n = p.n := by
-    induction ops with
-    | nil => intro p hp; exact ⟨hp, rfl⟩
-    | cons o r ih =>
-      intro p hp
-      have h1 := pstep_le p o hp
-      have h2 := ih (p.step o) h1.1
-      exact ⟨h2.1, h2.2.trans h1.2⟩
-  have := this (Pipe.init n) (Nat.zero_le n)
-  have h2 : (Pipe.init n).n = n := rfl
+/-- **accepting_iff_log.**  Independent specification of the hysteresis: in every reachable state the
+counter refuses **iff** the log of the observable number (open connections + pending accepts after
+every step) says so — at some moment the number was `stop` and at every later moment, now included,
+it was above `resume`.  Both directions: no admission between reaching `stop` and falling to
+`resume`, *and* no refusal at any other time. -/
+theorem accepting_iff_log (stop resume : Nat) (h : WF stop resume) (ops : List Op) :
+    (run repaired (init stop resume) ops).c.accepting = false ↔
+      StoppedLog stop resume (hist repaired (init stop resume) [0] ops) := by
+  have hl := run_log h ops (init stop resume) (inv_init stop resume h) [0]
+    (by have := h.1; simp [init, stoppedLogB]; omega)
+  rw [← stoppedLogB_iff, hl]
+  cases stoppedLogB stop resume (hist repaired (init stop resume) [0] ops) <;> simp
+
+/-- **admission_iff_log.**  What a new `Accept` on an open listener does is a function of the log
+alone: it waits iff the log says "stopped", and gets past the limiter otherwise. -/
+theorem admission_iff_log (stop resume : Nat) (h : WF stop resume) (ops : List Op) (l : Nat)
+    (ho : l ∉ (run repaired (init stop resume) ops).closed) :
+    ((step repaired (run repaired (init stop resume) ops) (.accept l)).2 = .wait ↔
+      StoppedLog stop resume (hist repaired (init stop resume) [0] ops)) ∧
+    ((step repaired (run repaired (init stop resume) ops) (.accept l)).2 = .pending ↔
+      ¬ StoppedLog stop resume (hist repaired (init stop resume) [0] ops)) := by
+  rw [← accepting_iff_log stop resume h ops]
+  generalize run repaired (init stop resume) ops = s at *
+  have hinc := inc_snd s.c
+  cases ha : s.c.accepting <;> simp [step, attempt, repaired, ho, hinc, ha]
+
+/-- Non-vacuity: stop 3, resume 1.  The number goes 1,2,3 (stopped), 2 (still stopped: above resume),
+1 (reopened), and the log says exactly that. -/
+example : WF 3 1 ∧
+    hist repaired (init 3 1) [0] [.accept 0, .accept 0, .accept 0, .fail 0] = [2, 3, 2, 1, 0] ∧
+    StoppedLog 3 1 (hist repaired (init 3 1) [0] [.accept 0, .accept 0, .accept 0, .fail 0]) ∧
+    ¬ StoppedLog 3 1 (hist repaired (init 3 1) [0] [.accept 0, .accept 0, .accept 0, .fail 0, .fail 0]) := by
+  refine ⟨⟨by decide, by decide, by decide⟩, by decide, ?_, ?_⟩
+  · rw [← stoppedLogB_iff]; decide
+  · rw [← stoppedLogB_iff]; decide
+
+/-- **reopened_when_low.**  Whenever the number is below `stop` and at or below `resume`, the counter
+accepts — so nobody is parked (`no_stuck_waiter`) and a woken or new acceptor of an open listener
+proceeds (`woken_proceeds`). -/
+theorem reopened_when_low (stop resume : Nat) (h : WF stop resume) (ops : List Op)
+    (hlt : count (run repaired (init stop resume) ops) < stop)
+    (hle : count (run repaired (init stop resume) ops) ≤ resume) :
+    (run repaired (init stop resume) ops).c.accepting = true ∧
+    (run repaired (init stop resume) ops).waitq = [] := by
+  have hi := reach_inv h ops
+  generalize run repaired (init stop resume) ops = s at *
+  unfold count at hlt hle
+  have hc := hi.cnt
+  cases ha : s.c.accepting with
+  | true => exact ⟨rfl, hi.noWait ha⟩
+  | false => rcases hi.high ha with h1 | h1 <;> omega
+
+example : WF 3 1 ∧ count (run repaired (init 3 1)
+    [.accept 0, .accept 0, .accept 0, .fail 0, .fail 0]) = 1 := by
+  refine ⟨⟨by decide, by decide, by decide⟩, by decide⟩
+
+/-- **woken_drain.**  Every re-check takes one acceptor out of `woken` and none is put back by it, so
+after as many re-checks as there are woken acceptors the state is quiescent (the number of pending
+wake-ups is a strictly decreasing measure: no live-lock among woken acceptors). -/
+theorem woken_drain (v : Variant) (s : St) (l : Nat) (hw : l ∈ s.woken) :
+    (step v s (.recheck l)).1.woken.length + 1 = s.woken.length := by
+  simp only [step, hw, if_true]
+  rw [attempt_woken]
+  show (s.woken.erase l).length + 1 = s.woken.length
+  rw [List.length_erase_of_mem hw]
+  have := List.length_pos_of_mem hw
   omega
 
-example : (Pipe.run (Pipe.init 2) [.query, .query, .query, .query]).inflight = 2 ∧
-    (Pipe.run (Pipe.init 2) [.query, .query, .query, .query, .done]).queued = 0 := by decide
+/-- **pipeline_bound.**  With pipeline limiting enabled, at most `n` queries of one TCP/TLS connection
+are being processed, for every burst and every order of arrivals, completions and `Acquire`
+time-outs; every running worker holds exactly one token of the connection's semaphore. -/
+theorem pipeline_bound (n : Nat) (ops : List POp) :
+    (Pipe.run (Pipe.init n) ops).running ≤ n ∧
+    (Pipe.run (Pipe.init n) ops).running = (Pipe.run (Pipe.init n) ops).tokens := by
+  have := prun_ok ops (Pipe.init n) ⟨rfl, Nat.zero_le n, fun _ => rfl⟩
+  have h2 : (Pipe.init n).n = n := rfl
+  obtain ⟨⟨h3, h4, _⟩, h5⟩ := this
+  omega
+
+/-- **pipeline_work_conserving.**  The limit is `n` and not less: whenever a message is held back
+(the reader sits in `Acquire`), exactly `n` queries of the connection are being processed; and while
+the reader is alive and not held back, nothing is left unread. -/
+theorem pipeline_work_conserving (n : Nat) (ops : List POp) :
+    ((Pipe.run (Pipe.init n) ops).blocked = true → (Pipe.run (Pipe.init n) ops).running = n) ∧
+    ((Pipe.run (Pipe.init n) ops).blocked = false → (Pipe.run (Pipe.init n) ops).dead = false →
+      (Pipe.run (Pipe.init n) ops).queued = 0) := by
+  have hs := prun_settled ops (Pipe.init n) (Or.inr (Or.inr ⟨rfl, rfl⟩))
+  have := prun_ok ops (Pipe.init n) ⟨rfl, Nat.zero_le n, fun _ => rfl⟩
+  have h2 : (Pipe.init n).n = n := rfl
+  obtain ⟨⟨h3, h4, h6⟩, h5⟩ := this
+  generalize Pipe.run (Pipe.init n) ops = p at *
+  constructor
+  · intro hb
+    rcases hs with hd | ⟨_, hn⟩ | ⟨hb', _⟩
+    · rw [h6 hd] at hb; cases hb
+    · omega
+    · rw [hb] at hb'; cases hb'
+  · intro hb hd
+    rcases hs with hd' | ⟨hb', _⟩ | ⟨_, hq⟩
+    · rw [hd] at hd'; cases hd'
+    · rw [hb] at hb'; cases hb'
+    · exact hq
+
+example : (Pipe.run (Pipe.init 2) [.query, .query, .query, .query]).running = 2 ∧
+    (Pipe.run (Pipe.init 2) [.query, .query, .query, .query]).blocked = true ∧
+    (Pipe.run (Pipe.init 2) [.query, .query, .query, .query, .done]).queued = 0 ∧
+    (Pipe.run (Pipe.init 2) [.query, .query, .query, .timeout, .query, .done]).running = 1 := by decide
 
 /-! ## The pinned tree before the repairs violates the property -/
 
@@ -210,7 +297,7 @@ although the counter accepts and only 2 of 3 slots are used.  Replayed on the re
 harness (`limiter.witness`). -/
 def stuckTrace : List Op :=
   [.accept 0, .deliver 0, .accept 0, .deliver 0, .accept 0, .deliver 0,
-   .accept 1, .accept 2, .close 0, .recheck 1, .close 1, .recheck 2]
+   .accept 1, .accept 2, .close 0 false, .recheck 1, .close 1 false, .recheck 2]
 
 theorem stuck_waiter_counterexample :
     ¬ ∀ ops, ¬ Stuck (run original (init 3 1) ops) := by
@@ -222,7 +309,7 @@ theorem stuck_waiter_signal_only :
     Stuck (run { wake := .signal, closedFirst := true } (init 3 1) stuckTrace) ∧
     ¬ Stuck (run { wake := .broadcast, closedFirst := false } (init 3 1)
       [.accept 0, .deliver 0, .accept 0, .deliver 0, .accept 0, .deliver 0,
-       .accept 1, .accept 2, .close 0, .recheck 1, .recheck 2, .close 1, .recheck 1, .recheck 2]) := by
+       .accept 1, .accept 2, .close 0 false, .recheck 1, .recheck 2, .close 1 false, .recheck 1, .recheck 2]) := by
   decide
 
 /-- Second defect: with the loop test `!l.counter.increment() && !l.isClosed`, one `Accept` on a
@@ -231,11 +318,11 @@ connection open or pending, and an acceptor of another, open listener waits fore
 theorem closed_accept_leak_counterexample :
     ¬ ∀ ops, (run original (init 1 1) ops).c.current = count (run original (init 1 1) ops) := by
   intro h
-  exact absurd (h [.lclose 0, .accept 0, .accept 1]) (by decide)
+  exact absurd (h [.lclose 0 false, .accept 0, .accept 1]) (by decide)
 
 theorem closed_accept_leak_blocks_others :
-    (run { wake := .broadcast, closedFirst := false } (init 1 1) [.lclose 0, .accept 0, .accept 1]).waitq = [1] ∧
-    count (run { wake := .broadcast, closedFirst := false } (init 1 1) [.lclose 0, .accept 0, .accept 1]) = 0 := by
+    (run { wake := .broadcast, closedFirst := false } (init 1 1) [.lclose 0 false, .accept 0, .accept 1]).waitq = [1] ∧
+    count (run { wake := .broadcast, closedFirst := false } (init 1 1) [.lclose 0 false, .accept 0, .accept 1]) = 0 := by
   decide
 
 #print axioms bound
@@ -245,7 +332,12 @@ theorem closed_accept_leak_blocks_others :
 #print axioms no_stuck_waiter
 #print axioms close_releases_waiters
 #print axioms release_once
+#print axioms accepting_iff_log
+#print axioms admission_iff_log
+#print axioms reopened_when_low
+#print axioms woken_drain
 #print axioms pipeline_bound
+#print axioms pipeline_work_conserving
 #print axioms stuck_waiter_counterexample
 #print axioms stuck_waiter_signal_only
 #print axioms closed_accept_leak_counterexample
